@@ -125,9 +125,7 @@ def lensCase (j : Lean.Json) : Lean.Json :=
             match resolveMapKey sc h with
             | none => specJson none "unresolved"
             | some k =>
-              let g := keyGroup pairs k
-              if g.isEmpty then Lean.Json.mkObj [("none", "absent_key"), ("rest", toJson body.length)]
-              else navJson sc (.arr g) (resolveSteps sc body)
+              navJson sc (.arr (keyGroup pairs k)) (resolveSteps sc body)
         Lean.Json.mkObj [("model", erJson model fun r => [("ok", jvalToJsonF r)]), ("spec", spec)]
       | none => Lean.Json.mkObj [("unmodelled", "value")]
     | _, _, _ => Lean.Json.mkObj [("unmodelled", "root")]
